@@ -30,6 +30,9 @@ use serde_json::{json, Value};
 
 use crate::common::{err_class, guarded, new_state, CaseWriter, Opts, Rng};
 
+#[path = "c18_kinds.rs"]
+mod c18_kinds;
+
 pub fn run(opts: &Opts) {
 	if opts.engine == "c18gc" {
 		run_gc(opts);
@@ -785,10 +788,19 @@ fn gc_once(code: &str) -> (String, String) {
 }
 
 fn gc_measure(code: &str) -> Value {
+	gc_measure_in(code, None)
+}
+
+/// `env`: evaluate in the environment of `c18_kinds` (ext vars, natives, library path = `env`)
+fn gc_measure_in(code: &str, env: Option<std::path::PathBuf>) -> Value {
 	let code = code.to_owned();
 	std::thread::Builder::new()
 		.stack_size(256 << 20)
 		.spawn(move || {
+			let gc_once = |code: &str| match &env {
+				Some(lib) => c18_kinds::gc_once_env(code, lib),
+				None => gc_once(code),
+			};
 			let fresh_tracked = jrsonnet_gcmodule::count_thread_tracked();
 			let (c1, _) = gc_once(&code);
 			jrsonnet_gcmodule::collect_thread_cycles();
@@ -901,11 +913,31 @@ fn run_gc(opts: &Opts) {
 		w.case(op, m);
 		flush(w);
 	};
+	// programs of `c18_kinds`: evaluated in its environment; `class` (where given) is demanded too
+	let lib_dir = opts.out.join("gclib");
+	c18_kinds::write_lib(&lib_dir);
+	let push_kind = {
+		let lib_dir = lib_dir.clone();
+		move |w: &mut CaseWriter, tag: &str, code: String, class: Option<&str>| -> Value {
+			let mut op = json!({"op":"gc.observe","prog":code,"tag":tag,"env":true,"size":code.len()});
+			let mut m = gc_measure_in(&code, Some(lib_dir.clone()));
+			if let Some(c) = class {
+				op["class"] = json!(c);
+				let got = m["_class"].as_str().unwrap_or("?");
+				m["class"] = json!(got.strip_prefix("err:").unwrap_or(got));
+			}
+			w.case(op, m.clone());
+			flush(w);
+			m
+		}
+	};
 	if let Some(rp) = &opts.replay {
 		let v: Value = serde_json::from_str(&std::fs::read_to_string(rp).expect("replay")).expect("json");
 		let opv = v.get("op").cloned().unwrap_or(v);
 		if let Some(code) = opv.get("prog").and_then(Value::as_str) {
-			if let Some(e) = opv.get("expect").and_then(Value::as_str) {
+			if opv.get("env").and_then(Value::as_bool) == Some(true) {
+				push_kind(&mut w, "replay", code.to_string(), opv.get("class").and_then(Value::as_str));
+			} else if let Some(e) = opv.get("expect").and_then(Value::as_str) {
 				push_expect(&mut w, "replay", code.to_string(), e, false);
 			} else {
 				push(&mut w, "replay", code.to_string());
@@ -953,10 +985,68 @@ fn run_gc(opts: &Opts) {
 		};
 		push(&mut w, "combo", code);
 	}
+	// every kind of object core / array representation / thunk / function value in a cycle with
+	// its owner
+	let mut kind_garbage: BTreeMap<String, usize> = BTreeMap::new();
+	let mut kind_classes: BTreeMap<String, usize> = BTreeMap::new();
+	let mut kind_programs = 0usize;
+	for (tag, kinds, class, t) in c18_kinds::KIND_TEMPLATES {
+		for _ in 0..(if opts.thorough() { 6 } else { 2 }) {
+			let code = instantiate(t, &mut rng);
+			let m = push_kind(&mut w, tag, code, if *class == "*" { None } else { Some(class) });
+			kind_programs += 1;
+			*kind_classes.entry(m["_class"].as_str().unwrap_or("?").to_string()).or_default() += 1;
+			if m["_cyclic_garbage_before_collect"].as_i64().unwrap_or(0) > 0 {
+				for k in *kinds {
+					*kind_garbage.entry((*k).to_string()).or_default() += 1;
+				}
+			}
+		}
+	}
+	// several of them alive at once, sharing one owner
+	let n_kcombo = if opts.thorough() { 1000 } else { 100 };
+	for _ in 0..n_kcombo {
+		let n = 2 + rng.below(3);
+		let parts: Vec<String> = (0..n)
+			.map(|_| loop {
+				let (_, _, _, t) = rng.pick(c18_kinds::KIND_TEMPLATES);
+				if !t.starts_with("function") {
+					break format!("({})", instantiate(t, &mut rng));
+				}
+			})
+			.collect();
+		let code = match rng.below(3) {
+			0 => format!("[{}]", parts.join(", ")),
+			1 => format!("local me = {{ k: [{}], m: me, s: self }}; std.length(me.m.s.k)", parts.join(", ")),
+			_ => format!("local me = {{ k: [{}], m: me, s: self }}; me.m.s.k", parts.join(", ")),
+		};
+		push_kind(&mut w, "kind-combo", code, None);
+		kind_programs += 1;
+	}
+	// the kinds the evaluator source declares vs the kinds the templates cycle through
+	let (kinds_src, kind_hist, unreached) = match c18_kinds::kinds_in_source() {
+		Ok(src) => {
+			let (h, u) = c18_kinds::coverage(&src);
+			(src.into_iter().collect::<Vec<_>>(), h, u)
+		}
+		Err(e) => (Vec::new(), BTreeMap::new(), vec![format!("<evaluator source not readable: {e}>")]),
+	};
+	w.case(
+		json!({"op":"gc.coverage","kinds_in_source":kinds_src,"size":0,"trivial":true}),
+		json!({"unreached": unreached}),
+	);
 	let cases = w.n;
 	w.finish(
 		json!({
 			"engine": "c18gc",
+			"kind_rule": format!("{} templates that put every kind of object core (plain, standalone super, omitted fields; built by std.objectRemoveKey / mergePatch / mapWithKey / prune / comprehensions / +: chains / natives), array representation (literal, lazy, eager, slice, reversed, mapped, repeated, range, extended, chars, bytes, object value / key-value views, arrays of arrays containing their owner), thunk (object field, array element, mapped element, memoized closure, evaluated, errored, pending context) and function value (closure, method, default parameters, std.id, static builtin, builtin with state, native callback with memory) into a reference cycle WITH ITS OWNER (cached in a field of the owner / captured by its closure / stored by a native), plus imports, import cycles, importstr/importbin, std.thisFile, ext-code values, TLA arguments, lazily evaluated self / $ / super, and error paths (cycle built, then error / failed assertion / type error / missing import / stack limit); x parameters + {n_kcombo} combinations under one owner; evaluated twice on a fresh thread, tracked objects and pool size after run 2 == after run 1, evaluation class as declared; `gc.coverage`: every `impl ObjectCore/ArrayLike/ThunkValue/Unbound/ObjectAssertion/Builtin for T` of the evaluator source must be claimed by a template", c18_kinds::KIND_TEMPLATES.len()),
+			"kind_programs": kind_programs,
+			"kinds_in_evaluator_source": kinds_src,
+			"kind_coverage_histogram(templates per kind)": kind_hist,
+			"kind_programs_that_left_cyclic_garbage(per kind)": kind_garbage,
+			"kind_class_histogram": kind_classes,
+			"kinds_not_cycled": c18_kinds::NOT_CYCLED.iter().map(|(k, why)| json!([k, why])).collect::<Vec<_>>(),
+			"kinds_unreached": unreached,
 			"rule": format!("collector: {} cyclic-structure templates (self reference, recursive closures, mutual locals, object-local contexts; succeeding / failing / stack-limited) x parameters + {n_combo} random combinations + {long_programs} programs with names/strings of 511..4096 bytes built twice independently (computed field lookup, objectHas, ==, inheritance; result must equal the expected JSON); each evaluated twice on a fresh thread, State and result dropped, collect_thread_cycles(); tracked objects and pool size after run 2 == after run 1", TEMPLATES.len()),
 			"programs": cases,
 			"long_name_programs_with_expected_result": long_programs,
